@@ -350,6 +350,23 @@ func (e *MultiNoFmt) Error() string {
 }
 func (e *MultiNoFmt) Unwrap() []error { return e.Cs }
 
+// MultiIs: unregistered multi-cause error with its own Is method (in the
+// style of aggregate error types): recognizes IsSentinel by identity.
+type MultiIs struct {
+	Msg string
+	Cs  []error
+}
+
+func (e *MultiIs) Error() string {
+	s := e.Msg
+	for _, c := range e.Cs {
+		s += " & " + c.Error()
+	}
+	return s
+}
+func (e *MultiIs) Unwrap() []error { return e.Cs }
+func (e *MultiIs) Is(r error) bool { return r == error(IsSentinel) }
+
 // MultiReg: registered multi-cause error.
 type MultiReg struct {
 	Msg string
